@@ -121,14 +121,15 @@ EXTRA = [
 def table_item(item, rec):
     V = harness.boot()
     for label, tmpl, typ, bad, ok in item:
+        found = {}
         for shape, script, dss in shapes(label, tmpl, typ, bad, ok):
             structs = {"datasets": [d.structure() for d in dss]}
             sem = harness.call(V.semantic_analysis, script, structs)
             if sem[0] != "ok":
                 rec.case(("table", label, shape, "semantic-reject"), "semantic-reject:" + str(sem[2]), nontrivial=False)
-                if sem[1] == "raw":
-                    rec.violation("C32:semantic:%s:%s:raw-error:%s" % (label, shape, sem[2]),
-                                  "semantic_analysis(%r) raises raw %s: %s" % (script, sem[2], sem[4][:200]), {"script": script, "kind": "table", "label": label, "shape": shape})
+                if sem[1] == "raw":   # outside the property's domain (script does not pass semantic analysis); counted only
+                    rec.count("raw_errors_in_semantic_analysis")
+                    rec.note("semantic_analysis(%r) raises raw %s" % (script, sem[2]))
                 continue
             if dss:
                 ld = refbase.run("DS_x <- DS_1;", dss)
@@ -143,9 +144,16 @@ def table_item(item, rec):
                 if out[0] == "err":
                     bad_raw = monitors.mon32(out) or monitors.mon26(out)
                     if bad_raw:
-                        rec.violation("C32:%s:%s:%s" % (label, "any" if typ not in ("Time_Period", "Date") else f, bad_raw),
-                                      "run(%r) [%s] raises %s %s: %s" % (script, f, out[1], out[2], out[4][:200]),
-                                      {"kind": "table", "label": label, "shape": shape, "format": f})
+                        found.setdefault((label, bad_raw), {}).setdefault(f, (script, shape, out))
+        # one key per (label, kind of escape); the output format is part of the key only when the failure depends on it
+        for (label, bad_raw), byf in found.items():
+            fmts_all = FORMATS if typ in ("Time_Period", "Date") else ("vtl",)
+            fkey = "any" if set(byf) == set(fmts_all) else "+".join(sorted(byf))
+            f0 = sorted(byf)[0]
+            script, shape, out = byf[f0]
+            rec.violation("C32:%s:%s:%s" % (label, fkey, bad_raw),
+                          "run(%r) [%s] raises %s %s: %s" % (script, f0, out[1], out[2], out[4][:200]),
+                          {"kind": "table", "label": label, "shape": shape, "format": f0})
 
 
 def extra_item(item, rec):
@@ -157,8 +165,8 @@ def extra_item(item, rec):
         if sem[0] != "ok":
             rec.case(("extra", label, "semantic-reject"), "semantic-reject:" + str(sem[2]), nontrivial=False)
             if sem[1] == "raw":
-                rec.violation("C32:semantic:%s:raw-error:%s" % (label, sem[2]), "semantic_analysis(%r) raises raw %s: %s" % (script, sem[2], sem[4][:200]),
-                              {"kind": "extra", "label": label})
+                rec.count("raw_errors_in_semantic_analysis")
+                rec.note("semantic_analysis(%r) raises raw %s" % (script, sem[2]))
             continue
         out = refbase.run(script, dss)
         cls = "returns" if out[0] == "ok" else "%s:%s" % (out[1], out[2])
@@ -199,7 +207,7 @@ class Check:
             "outcomes (quick: every failing corpus call + 400 successful; thorough: all); valid input by construction (semantic "
             "analysis passes, data loads alone); oracle: returns, or raises a VTLEngineException with catalogued code. distinct key "
             "= (source, label, shape, outcome class)")
-    ASSUMPTIONS = ["errors raised by semantic_analysis() itself are reported only when raw (property is about run(), but a raw error there escapes run() too)"]
+    ASSUMPTIONS = ["scripts that do not pass semantic_analysis() are outside the property's domain; raw errors raised there are only counted"]
 
     def run(self, tier, seed, rec):
         harness.boot()
